@@ -14,7 +14,7 @@ from typing import Any, Dict, List, Tuple
 
 from .. import core
 from ..core import Check, exc_family, loc_to_parts, show, untext
-from ..pathcommon import DocTable, alt_descendant_order_ok, lockey, run_universes, sel_features, walk
+from ..pathcommon import DocTable, alt_descendant_order_ok, lockey, random_cases, replay_random, run_universes, sel_features, walk
 
 _table: Any = None
 
@@ -82,6 +82,14 @@ def run(chk: Check, tier: str, seed: int) -> None:
             chk.nontrivial.add(json.dumps(rec["q"], sort_keys=True))
         for sig, case, what in res:
             chk.violation(sig, case, what)
+    rnd = random_cases(chk, filters=False, num=4000 if tier == "quick" else 160000, seed=seed, depth=3 if tier == "quick" else 4, segs=3 if tier == "quick" else 4)
+    for rec, res in zip(rnd, core.pmap(replay_random, rnd)):
+        chk.traces += 4
+        if rec["res"]:
+            chk.nontrivial.add(json.dumps((rec["q"], rec["doc"]), sort_keys=True))
+        for sig, case, what in res:
+            chk.violation(sig, case, what)
+    chk.extra["random_document_query_pairs"] = len(rnd)
     chk.evaluations = chk.traces
     for rec in recs[5:8] + recs[-2:]:
         chk.sample({"texts": [untext(t) for t in rec["texts"][:3]], "expected_parts_doc8": [list(loc_to_parts(l)) for l in rec["res"][8]]})
@@ -96,6 +104,11 @@ def run(chk: Check, tier: str, seed: int) -> None:
 
 
 def replay_file(case: Dict[str, Any]) -> int:
+    if "doc" in case["case"].get("tagged", {}):  # a random (document, query) pair drawn by MC_PathRandom
+        res = replay_random(case["case"]["tagged"])
+        for sig, c, what in res:
+            print("DIVERGENCE", sig, c["query"], c["expected"], c["observed"])
+        return 1 if res else 0
     global _table
     chk = Check("C01", "quick", 0)
     docs, _ = run_universes(chk, ["names"])
